@@ -9,8 +9,11 @@ import (
 	"github.com/cosi-project/runtime/pkg/controller/conformance"
 	"github.com/cosi-project/runtime/pkg/resource"
 	"github.com/cosi-project/runtime/pkg/state"
+	"github.com/cosi-project/runtime/pkg/state/protobuf/client"
+	"github.com/cosi-project/runtime/pkg/state/protobuf/server"
 	"verif.local/explore"
 	"verif.local/harness/hx"
+	"verif.local/harness/lb"
 	"verif.local/vrt"
 )
 
@@ -51,10 +54,14 @@ type spy struct {
 	log    *hx.Log
 	before map[int][]int
 	after  map[int][]int
+	parent map[int]int // remote flavours: stream handler goroutine -> calling goroutine
 }
 
 func (s *spy) Watch(ctx context.Context, p resource.Pointer, ch chan<- state.Event, opts ...state.WatchOption) error {
 	g := vrt.CurID()
+	if pg, ok := s.parent[g]; ok {
+		g = pg
+	}
 	s.before[g] = append(s.before[g], s.log.Len())
 	err := s.CoreState.Watch(ctx, p, ch, opts...)
 	s.after[g] = append(s.after[g], s.log.Len())
@@ -155,25 +162,43 @@ func eventsFrom(ss []resource.Resource, k0 int) []state.Event {
 	return ev
 }
 
+// snapN renders a resource; a tombstone and its wire form (a typed zero value at version undefined) are the same.
+func snapN(r resource.Resource) string {
+	if r != nil && r.Metadata().Version().String() == resource.VersionUndefined.String() {
+		return fmt.Sprintf("%s/%s@undefined", r.Metadata().Type(), r.Metadata().ID())
+	}
+	return hx.Snap(r)
+}
+
 func tornDown(r resource.Resource) bool {
 	return r == nil || r.Metadata().Phase() == resource.PhaseTearingDown
 }
 
 func scenario(kinds []opKind, init initial, bounds []int) explore.Scenario {
+	return scenarioFl("wrap-inmem", kinds, init, bounds)
+}
+
+func scenarioFl(flavour string, kinds []opKind, init initial, bounds []int) explore.Scenario {
 	names := make([]string, len(kinds))
 	for i, k := range kinds {
 		names[i] = opNames[k]
 	}
-	name := fmt.Sprintf("wrap-inmem/%s/%s", initNames[init], strings.Join(names, "+"))
+	name := fmt.Sprintf("%s/%s/%s", flavour, initNames[init], strings.Join(names, "+"))
 	return explore.Scenario{
 		Name:   name,
-		Desc:   fmt.Sprintf("actors %s on one resource, initial %s, state.WrapCore(inmem)", strings.Join(names, ", "), initNames[init]),
+		Desc:   fmt.Sprintf("actors %s on one resource, initial %s, flavour %s (remote-native = client adapter with Teardown/TeardownAndDestroy RPCs over the in-process transport, remote-fallback = server without those RPCs)", strings.Join(names, ", "), initNames[init], flavour),
 		Bounds: bounds,
 		Body: func(x *explore.X) {
 			root, cancel := context.WithCancel(context.Background())
 			log := &hx.Log{}
 			sp := &spy{CoreState: hx.NewInmem(log), log: log, before: map[int][]int{}, after: map[int][]int{}}
 			st := state.WrapCore(sp)
+			if flavour != "wrap-inmem" {
+				lc := lb.New(server.NewState(sp))
+				lc.NoNative = flavour == "remote-fallback"
+				sp.parent = lc.Parent
+				st = state.WrapCore(client.NewAdapter(lc))
+			}
 			if init != initAbsent {
 				r := conformance.NewIntResource(hx.NS, "r", 7)
 				if init >= initRunningF {
@@ -305,8 +330,8 @@ func check(x *explore.X, log *hx.Log, sp *spy, calls []*call) {
 				var want []string
 				for k0 := lo; k0 <= up; k0++ {
 					if r, found := firstMatch(k0); found {
-						want = append(want, hx.Snap(r))
-						if hx.Snap(r) == hx.Snap(c.ret) {
+						want = append(want, snapN(r))
+						if snapN(r) == snapN(c.ret) {
 							ok = true
 						}
 					}
@@ -360,6 +385,21 @@ func build(tier string) []explore.Scenario {
 					bounds = []int{0, 1, 2, 3, -1}
 				}
 				out = append(out, scenario([]opKind{a, b}, in, bounds))
+			}
+		}
+	}
+	// remote flavours: the blocking helpers against the concurrent actors that matter for them
+	for _, fl := range []string{"remote-native", "remote-fallback"} {
+		for _, pr := range [][]opKind{{opTDD, opRmFin}, {opTDD, opAddRm}, {opTDD, opDestroy}, {opTDD, opTDD}, {opTeardown, opRmFin}, {opTeardown, opTeardown},
+			{opRmFin, opWaitFinEmpty}, {opTeardown, opWaitTD}, {opDestroy, opWaitDestroyed}, {opTeardown, opCtxTeardown}, {opDestroy, opCtxTeardown}} {
+			for _, in := range []initial{initRunningF, initRunning} {
+				b := []int{0}
+				if tier == "thorough" {
+					b = []int{0, 1}
+				}
+				sc := scenarioFl(fl, pr, in, b)
+				sc.MaxExecs = 150000
+				out = append(out, sc)
 			}
 		}
 	}
